@@ -348,6 +348,22 @@ class PrimMixin(object):
     p_hex = p_bin
 
     def p_next(self, ctx, st, args, kwargs, node):
+        # next(<comprehension / list iterator>, default): an element of the sequence, or the default
+        if args and isinstance(args[0], VList):
+            items = st.heap_get(args[0].oid, "items")
+            elem = st.heap_get(args[0].oid, "elem")
+            outs = []
+            if items:
+                outs += [(i, st) for i in items[:1]]
+            elif elem is not None:
+                outs.append((elem, st))
+            else:
+                outs.append((VSym(fresh("next")), st))
+            if len(args) > 1:
+                outs.append((args[1], st))
+            else:
+                self.oblige(ctx, st, node, False, "StopIteration", "next() of a possibly exhausted iterator without default")
+            return outs
         return [(VSym(fresh("next")), st)]
 
     def p_object(self, ctx, st, args, kwargs, node):
